@@ -170,6 +170,44 @@ def gen_cases(tier, seed):
             c["rel"] = "rev"
             c["yi"] = xi[::-1]
         add(c)
+    # the significance threshold itself: series whose |Z| lies between Phi^-1(0.975) = 1.959964 and 1.96 (p just below
+    # 0.05: the flag is sign(Z)) and just below the quantile (flag 0) - built from a sorted series with k tied pairs by
+    # adjacent swaps, each of which lowers S by 2
+    import math
+
+    q = 1.959963984540054
+    made = 0
+    for n in range(30, 140):
+        for k in (0, 1, 2, 5, 20, 30):
+            if 2 * k > n or made >= (6 if quick else 40):
+                continue
+            var = (n * (n - 1) * (2 * n + 5) - k * 2 * 1 * 9) / 18.0
+            for s_target in range(int(q * math.sqrt(var)) - 1, int(q * math.sqrt(var)) + 4):
+                z = (s_target - 1) / math.sqrt(var)
+                smax = n * (n - 1) // 2 - k
+                if not (q < z < 1.96 or q - 0.0004 < z < q) or (smax - s_target) % 2 or s_target > smax:
+                    continue
+                base = []
+                v = 0
+                for i in range(n):
+                    base.append(v)
+                    if not (i < 2 * k and i % 2 == 0):
+                        v += 1
+                # lower S by adjacent swaps of distinct neighbours, sweeping from the left (bubble the large values down)
+                xs_, need, i = list(base), (smax - s_target) // 2, 0
+                while need and i < 10**6:
+                    j = i % (n - 1)
+                    if xs_[j] < xs_[j + 1]:
+                        xs_[j], xs_[j + 1] = xs_[j + 1], xs_[j]
+                        need -= 1
+                        i += 2
+                    else:
+                        i += 1
+                if need:
+                    continue
+                for sign in (1, -1):
+                    add({"op": "one", "api": rng.choice(["gu", "gund", "mktrend", "yxt"]), "dtype": rng.choice(["int16", "float32"]), "xi": [sign * t for t in xs_], "ndv": -9999.0, "f32": True, "family": "threshold"})
+                made += 1
     for n in (1, 2, 5, 30):
         for api, dtype in (("gund", "int16"), ("gund", "float32"), ("mktrend_nd", "int16")):
             add({"op": "allnodata", "api": api, "dtype": dtype, "xi": [-9999] * n, "ndv": -9999.0})
